@@ -283,6 +283,21 @@ func (c *Ctx) provablyDistinct(a, b T) bool {
 			return true
 		}
 	}
+	if c.distinctPairs[a.S+"|"+b.S] {
+		return true
+	}
+	// an object id read from a field of the entry heap existed at entry; an id
+	// handed out by an allocation counter did not
+	entryLoaded := func(s string) bool {
+		return strings.HasPrefix(s, "(select H0_F.") && !strings.Contains(s, "alloc")
+	}
+	allocBased := func(s string) bool {
+		bo, _, ok := splitBaseOff(s)
+		return ok && strings.HasPrefix(bo, "alloc!")
+	}
+	if (entryLoaded(a.S) && allocBased(b.S)) || (entryLoaded(b.S) && allocBased(a.S)) {
+		return true
+	}
 	if ga, ok := c.distinctGrp[a.S]; ok {
 		if gb, ok := c.distinctGrp[b.S]; ok && ga == gb && a.S != b.S {
 			return true
